@@ -96,3 +96,20 @@ pub fn exercise(e: &Event<'_>, dec: Decoder) {
         Event::Eof => {}
     }
 }
+
+/// errors are printed by every consumer: Display, Debug and source() must work too
+pub fn exercise_err(e: &quick_xml::Error) {
+    use std::error::Error as _;
+    let _ = e.to_string();
+    let _ = format!("{:?}", e);
+    let mut src = e.source();
+    let mut n = 0;
+    while let Some(s) = src {
+        let _ = s.to_string();
+        src = s.source();
+        n += 1;
+        if n > 8 {
+            break;
+        }
+    }
+}
